@@ -43,7 +43,8 @@ RULE = (
     'outside the root under every reading; distinct = sha1 of the descriptor JSON'
 )
 ASSUMPTIONS = [
-    'no symbolic links anywhere in the scratch tree (not in the statement); POSIX host',
+    'no symbolic links anywhere in the scratch tree (not in the statement); POSIX host with a case-sensitive file '
+    'system (directories whose names differ from the root only in letter case are different directories)',
     'file and folder names are ASCII without NUL; no file name in the tree contains a backslash',
     'a query containing a backslash has two admissible readings (srctools: separator; POSIX: name character); '
     'RootEscapeError is demanded/forbidden only when both readings agree, leaking is forbidden under both',
@@ -65,7 +66,8 @@ LEVEL_NOTE = ('Trusts the harness resolver (cross-checked against os.path.realpa
               'no symlinks; backslash queries judged only where the srctools and the POSIX reading agree.')
 CAPS = (300, 2400)
 
-ROOT_NAMES = ['root', 'r', 'hl2.x', 'Game Dir', 'portal2_dlc1']
+# mixed case, so that lower/upper/swapcase give three different sibling names on this case-sensitive host
+ROOT_NAMES = ['Root', 'rX', 'Hl2.x', 'Game Dir', 'Portal2_DLC1']
 SIB_SUFFIXES = ['2', '_old', '.bak']
 ROOT_FORMS = ['abs', 'abs_slash', 'abs_dot', 'abs_dotdot', 'abs_dblslash_mid', 'rel', 'rel_slash', 'rel_dot',
               'rel_up', 'pathlib']
@@ -80,8 +82,8 @@ SIBLING_FILES = ['secret.txt', 'sub/b.txt', 'a.txt']
 # Query segment symbols.
 SEG_DOTS = ['..', '..', '..', '.', '']
 SEG_INSIDE = ['a.txt', 'secret.txt', 'sub', 'b.txt', 'deep', 'c.txt', '@r', 'inner.txt', 'x.txt', 'd.txt']
-SEG_SIB = ['@r2', '@r_old', '@r.bak', 'other', '@r2.txt']
-SEG_ABOVE = ['@base', 'base.txt', 'top.txt', 'missing']
+SEG_SIB = ['@r2', '@r_old', '@r.bak', 'other', '@r2.txt', '@rl', '@ru', '@rs', '@rl2']
+SEG_ABOVE = ['@base', 'base.txt', 'top.txt', 'missing', '@basev']
 SEG_ABS = ['@ABS_ROOT', '@ABS_BASE', '@ABS_SIB2', '@ABS_SIBOLD', '@ABS_SCRATCH', '@ABS_SLASH']
 
 # Twin filesystems on the same root (state shared between filesystem objects must not weaken the constrained one).
@@ -115,7 +117,7 @@ def query_strategy():
     )
     absolute = st.tuples(
         st.sampled_from(['@ABS_ROOT', '@ABS_ROOT', '@ABS_BASE', '@ABS_SIB2', '@ABS_SIB2', '@ABS_SIBOLD',
-                         '@ABS_SCRATCH', '@ABS_SLASH']),
+                         '@ABS_SCRATCH', '@ABS_SLASH', '@ABS_SIBL', '@ABS_SIBU', '@ABS_BASEV', '@ABS_BASEV_ROOT']),
         free,
     ).map(lambda t: [t[0]] + t[1])
     # climb out of a few existing folders, then name something next to the root
@@ -128,14 +130,16 @@ def query_strategy():
     # a file that (probably) exists inside the root, reached over a detour that stays inside or comes back
     inside_file = st.tuples(
         st.sampled_from([[], [], ['.'], ['sub', '..'], ['..', '@r'], ['@ABS_ROOT'], ['@r', '..'],
-                         ['..', '..', '@base', '@r'], ['@ABS_BASE', '@r'], ['@ABS_SIB2', '..', '@r'], ['']]),
+                         ['..', '..', '@base', '@r'], ['@ABS_BASE', '@r'], ['@ABS_SIB2', '..', '@r'], [''],
+                         ['..', '@ru', '..', '@r'], ['@ABS_SIBL', '..', '@r']]),
         st.tuples(st.sampled_from(IN_ROOT_FILES).map(lambda p: p.split('/')), noise).map(_noisy),
     ).map(lambda t: t[0] + t[1])
     # a file that exists next to the root
     sibling_file = st.tuples(
         st.sampled_from([['..'], ['..'], ['sub', '..', '..'], ['sub', 'deep', '..', '..', '..'], ['.', '..'],
-                         ['@ABS_BASE'], ['@ABS_ROOT', '..'], ['missing', '..', '..'], ['@r', '..', '..']]),
-        st.sampled_from(['@r2', '@r2', '@r_old', '@r.bak', 'other']),
+                         ['@ABS_BASE'], ['@ABS_ROOT', '..'], ['missing', '..', '..'], ['@r', '..', '..'],
+                         ['..', '..', '@basev'], ['@ABS_BASEV']]),
+        st.sampled_from(['@r2', '@r2', '@r_old', '@r.bak', 'other', '@rl', '@ru', '@rs', '@rl2', '@rl', '@ru']),
         st.tuples(st.sampled_from(SIBLING_FILES + ['']).map(lambda p: p.split('/')), noise).map(_noisy),
     ).map(lambda t: t[0] + [t[1]] + t[2])
     segs = st.one_of(free, absolute, climb, inside_file, inside_file, sibling_file)
@@ -153,7 +157,7 @@ def case_strategy(chain: bool):
         nq = 12 if tier == 'quick' else 20
         d = {
             'root': st.sampled_from(ROOT_NAMES),
-            'base': st.sampled_from(['base', 'B', 'game dir']),
+            'base': st.sampled_from(['Base', 'bB', 'Game dir']),
             'root_form': st.sampled_from(ROOT_FORMS),
             'files': st.lists(st.sampled_from(IN_ROOT_FILES), min_size=1, max_size=len(IN_ROOT_FILES), unique=True),
             'queries': st.lists(query_strategy(), min_size=1, max_size=nq),
@@ -209,6 +213,17 @@ class Tree:
             '@ABS_ROOT': self.root, '@ABS_BASE': self.base, '@ABS_SIB2': self.root + '2',
             '@ABS_SIBOLD': self.root + '_old', '@ABS_SCRATCH': self.scratch, '@ABS_SLASH': '/',
         }
+        # Names that differ from the root (or the base) only in letter case: other directories on this host.
+        rn, bn = self.root_name, desc['base']
+        self.base_variant = bn.swapcase()
+        self.sym.update({
+            '@rl': rn.lower(), '@ru': rn.upper(), '@rs': rn.swapcase(), '@rl2': rn.lower() + '2', '@basev': self.base_variant,
+            '@ABS_SIBL': self.base + '/' + rn.lower(), '@ABS_SIBU': self.base + '/' + rn.upper(),
+            '@ABS_BASEV': self.scratch + '/' + self.base_variant,
+            '@ABS_BASEV_ROOT': self.scratch + '/' + self.base_variant + '/' + rn,
+        })
+        self.case_siblings = [n for n in dict.fromkeys([rn.lower(), rn.upper(), rn.swapcase(), rn.lower() + '2'])
+                              if n != rn]
 
     def expand(self, symbolic: str) -> str:
         return '/'.join(self.sym.get(part, part) for part in symbolic.split('/'))
@@ -227,9 +242,13 @@ class Tree:
         os.makedirs(self.root, exist_ok=True)
         for rel in desc['files']:
             self.put(self.root + '/' + self.expand(rel))
-        for sib in [self.root_name + s for s in SIB_SUFFIXES] + ['other']:
+        for sib in dict.fromkeys([self.root_name + s for s in SIB_SUFFIXES] + ['other'] + self.case_siblings):
             for rel in SIBLING_FILES:
                 self.put(self.base + '/' + sib + '/' + rel)
+        if self.base_variant != os.path.basename(self.base):
+            # an ancestor that differs only in case, holding a folder named exactly like the root
+            for rel in SIBLING_FILES[:2]:
+                self.put(self.scratch + '/' + self.base_variant + '/' + self.root_name + '/' + rel)
 
     def inside(self, real: str) -> bool:
         return real == self.root or os.path.commonpath([real, self.root]) == self.root
@@ -297,6 +316,14 @@ def build_query(tree: Tree, qd) -> str:
             out.append(ch)
         core = ''.join(out)
     return qd['lead'] + core + qd['trail']
+
+
+def case_variant_escape(tree: Tree, real: str) -> bool:
+    """The (outside) target lies in a directory whose path differs from the root's only in letter case."""
+    root = tree.root
+    head = real[:len(root)]
+    return (len(real) >= len(root) and head != root and head.casefold() == root.casefold()
+            and real[len(root):][:1] in ('', '/'))
 
 
 def route_of(tree: Tree, q: str, rd: Reading) -> str:
@@ -629,6 +656,10 @@ def execute_generic(desc, ctx, mode: str) -> None:
             if all(not r.inside for r in readings):
                 any_outside = True
                 ctx.label(route_of(tree, q, readings[0]))
+                if case_variant_escape(tree, readings[0].real):
+                    ctx.label('escape:case_variant_sibling')
+                    if readings[0].real[:len(tree.base)] != tree.base:
+                        ctx.label('escape:case_variant_ancestor')
                 if '\\' in q:
                     ctx.label('route:with_backslash')
             ctx.label('sep:' + ('none' if '/' not in q and '\\' not in q else
@@ -659,7 +690,7 @@ def execute_chain(desc, ctx):
     execute_generic(desc, ctx, 'chain')
 
 
-_ROUTES = ('twin:unconstrained_first', 'twin:none', 'twin:constrained2', 'twin:respelled', 'route:dotdot:sibling_ext', 'route:abs:sibling_ext', 'route:dotdot:ancestor', 'route:dotdot:base_entry',
+_ROUTES = ('escape:case_variant_sibling', 'escape:case_variant_ancestor', 'twin:unconstrained_first', 'twin:none', 'twin:constrained2', 'twin:respelled', 'route:dotdot:sibling_ext', 'route:abs:sibling_ext', 'route:dotdot:ancestor', 'route:dotdot:base_entry',
            'route:dotdot:sibling_other', 'route:with_backslash', 'target:inside', 'target:outside')
 
 SUBCHECKS = [
